@@ -404,10 +404,13 @@ def summarise(run, dom, body, where='', collect=False, parallel=None):
         post.assume(z3.ForAll([i_], z3.Implies(rng, itf(i_ + 1) == gen(v)), patterns=[itf(i_ + 1)]))
         cf = _closed_form(v, itf, ik, body_consts)
         if cf is not None:
-            # iteration of a pure function g: it(i) = iter_g(init, i, invariant args)   (rule: induction on i)
+            # iteration of a function g with per-index arguments: it(i) = iterx_g(init, i, [lambda j. arg_k(j)]...)
+            # where iterx_g(s,0,..) = s and iterx_g(s,i+1,A..) = g(iterx_g(s,i,A..), A1[i], ..)   (rule: induction on i)
             g, others = cf
-            it_g = F('iter_' + g.name(), init.sort(), Int, *[o.sort() for o in others], init.sort())
-            post.assume(z3.ForAll([i_], z3.Implies(i_ >= 0, itf(i_) == it_g(init, i_, *others)), patterns=[itf(i_)]))
+            jj = z3.Int('j!it')
+            arrs = [z3.Lambda([jj], z3.substitute(o, (ik, jj))) for o in others]
+            it_g = F('iterx_' + g.name(), init.sort(), Int, *[a.sort() for a in arrs], init.sort())
+            post.assume(z3.ForAll([i_], z3.Implies(i_ >= 0, itf(i_) == it_g(init, i_, *arrs)), patterns=[itf(i_)]))
             run.note('rule:iterated-function ' + g.name())
         final = itf(n)
         if desc[0] == 'field':
@@ -516,13 +519,14 @@ def _collect(run, dom, normal, nguards, gen, ik, n, merged):
 
 
 def _closed_form(v, itf, ik, body_consts):
-    """v == g(itf(ik), c1..ck) with g uninterpreted and the c's independent of the iteration -> (g, [c..])."""
+    """v == g(itf(ik), t1(ik)..tk(ik)) with g uninterpreted and the t's free of body-local symbols and of other
+    carried sequences -> (g, [t..])."""
     if not (z3.is_app(v) and v.decl().kind() == z3.Z3_OP_UNINTERPRETED and v.num_args() >= 1):
         return None
     if not z3.eq(v.arg(0), itf(ik)):
         return None
     others = [v.arg(k) for k in range(1, v.num_args())]
-    banned = set(c.get_id() for c in body_consts) | {ik.get_id()}
+    banned = set(c.get_id() for c in body_consts if not z3.eq(c, ik))
     for o in others:
         if _mentions(o, banned, itf):
             return None
